@@ -197,8 +197,9 @@ class C09(PropertyCheck):
         "QipVerif.GateExact.compactC_fixed_is_source",
         # constructor arguments of the gate classes
         "QipVerif.C09.hard_values_sound", "QipVerif.C09.ctor_table_sound", "QipVerif.C09.ctor_hardcoded_refuses",
-        "QipVerif.C09.ctor_controlled_anatomy", "QipVerif.C09.ctor_request_honoured_partial",
-        "QipVerif.C09.ctor_cphase_counterexample", "QipVerif.C09.ctor_plain_anatomy", "QipVerif.C09.ctor_fixed_counterexample",
+        "QipVerif.C09.ctor_controlled_anatomy", "QipVerif.C09.ctor_chain_hands_on", "QipVerif.C09.ctor_request_honoured",
+        "QipVerif.C09.ctor_plain_table", "QipVerif.C09.ctor_plain_anatomy", "QipVerif.C09.ctor_fixed_table",
+        "QipVerif.C09.ctor_fixed_refuses",
         "QipVerif.C09.ctor_circuit_agrees", "QipVerif.C09.ctor_controlled_matrix", "QipVerif.C09.ctor_controlled_value_refused",
     ]
     base_theorems = list(theorems)
@@ -207,7 +208,10 @@ class C09(PropertyCheck):
                  "unitarity proved for all parameters; fixed gates decided in Z[zeta16][1/2] by the kernel AND proved equal to the "
                  "translated source; controlled_gate: executable model of block_diag + expand_operator composed with C08, proved "
                  "equal to the block specification for every number of controls / value / placement; one path-agreement theorem per "
-                 "shared name and the name sets of the lookup paths decided on the regenerated tables")
+                 "shared name and the name sets of the lookup paths decided on the regenerated tables; constructor arguments: the "
+                 "__init__ chain of every gate class (guards, control_value policy, which parameters are handed on, whether "
+                 "get_compact_qobj reads control_value) regenerated into a table, executable model of a keyword request, theorems "
+                 "for all requests + table conditions decided by the kernel")
     level_text = ("For the gate functions translated from the current source: unitarity of EVERY generated gate and the documented "
                   "matrix for ALL parameter values as Lean theorems (RX/RY/RZ/R/MS/RZX as exp(-i theta/2 A), BERKELEY as "
                   "exp(i pi/8 (2XX+YY)), SWAPalpha, iSWAP, CPHASE, QASMU, the square-root relations); the exact library equals the "
@@ -215,25 +219,48 @@ class C09(PropertyCheck):
                   "hold the value, identity elsewhere) for every number of controls, control value, single-qubit U and injective "
                   "placement, unitary when U is; the generic-name path, the class path and the circuit dispatch resolve to the same "
                   "matrix for every shared name (one generated theorem per name) and the name sets / refusals of the paths are "
-                  "decided on the regenerated tables. Tie: float rendering of the same syntax trees vs the functions on a 15-angle "
+                  "decided on the regenerated tables. Constructor arguments (targets/controls as integer or list, arity, arg_value "
+                  "shape, control_value) of every key of GATE_CLASS_MAP, of ControlledGate with every single-qubit target class and "
+                  "of Gate(name): for ALL requests, a class of the ControlledGate hierarchy whose get_compact_qobj ignores "
+                  "control_value only yields objects carrying its hard-coded value on one control (ctor_hardcoded_refuses, over the "
+                  "regenerated table); a class that reads it yields ctrlN m v U for the carried value v on the m listed controls, "
+                  "first listed most significant (ctor_controlled_matrix), refuses values outside the blocks; the carried value is "
+                  "the requested one for every class of the table (ctor_request_honoured); the fixed-matrix classes outside the "
+                  "hierarchy (TOFFOLI, FREDKIN, generic Gate of a controlled name) serve a request only with no control value or "
+                  "'all listed controls 1' (ctor_fixed_refuses); circuit path = class path (ctor_circuit_agrees). These hold for "
+                  "the source after the fixes C09-2 (CPHASE dropped control_value) and C09-3 (TOFFOLI/FREDKIN/generic Gate ignored "
+                  "it), found here and applied. "
+                  "Tie: float rendering of the same syntax trees vs the functions on a 15-angle "
                   "grid incl. boundaries; exact library vs implementation for every name and all 32 angle residues (complete); "
                   "controlled_gate model vs implementation for every placement of <= 3 controls on <= 4 qubits and every control "
-                  "value incl. refused ones (complete) plus argument shapes.")
-    level_note = ("Trusted: Lean kernel; py/translate/gates.py (structural ast mapping, validated numerically each run); qutip's "
+                  "value incl. refused ones (complete) plus argument shapes; constructor model vs implementation on the complete "
+                  "grid of 7 x 7 argument shapes x all control values x arg_value shapes for every class and path (48k requests: "
+                  "refusal kind, carried attributes, matrix).")
+    level_note = ("Trusted: Lean kernel; py/translate/gates.py and py/translate/gatector.py (structural ast mapping, validated "
+                  "against behaviour each run; an unrecognised statement in an __init__ is a TranslatorError); qutip's "
                   "sigmax/sigmay/sigmaz/qeye/identity/fock_dm constants, tensor = Kronecker product (first factor most significant), "
                   "block_diag and Qobj dims as modelled in Model/Ctrl.lean (compared with the implementation exhaustively), "
                   "Qobj.tidyup() of the CPHASE class path taken as the identity; globalphase/rotation are not modelled. cphase is "
-                  "translated on its default arguments (N=2, control=0, target=1), the only call both paths make. controlled_gate "
-                  "with one bare-integer and one list argument is refused by the current source (compatibility line tests `targets` "
-                  "twice): modelled as is, theorem controlled_gate_mixed_shapes, proposed fix fixes/C09-1.patch.")
+                  "translated on its default arguments (N=2, control=0, target=1), the only call both paths make. Constructor model: "
+                  "integer qubit labels only (no range / duplicate check exists in any constructor, modelled as such), arg_value by "
+                  "shape with non-integral entries, controls=None for ControlledGate used directly and multi-qubit target gates are "
+                  "outside the model; Python's missing-argument TypeError is modelled as one refusal kind. The correspondence of the "
+                  "hard-coded matrix functions to GateCtor.hardOf is by name (hard_values_sound proves the matrices). No arity "
+                  "guard exists in TOFFOLI / FREDKIN / the generic Gate (TOFFOLI(targets=[0, 1]) is accepted and fails only in "
+                  "get_qobj): modelled as is, not part of the oracle.")
     trusted_base = ["Lean 4.33 kernel; axioms propext, Classical.choice, Quot.sound",
                     "py/translate/gates.py (ast -> Lean), validated by drv_gates float evaluation against the functions",
+                    "py/translate/gatector.py (ast of the class bodies -> Gen/GateCtor.lean), validated by the constructor "
+                    "correspondence on the complete grid of argument shapes",
                     "Model/Ctrl.lean as a description of block_diag / Qobj dims / expand_operator, validated exhaustively against "
                     "controlled_gate (all placements of <= 3 controls on <= 4 qubits, all control values, shapes)",
-                    "py/props/c09.py documented matrices (oracle) and harness"]
+                    "Model/GateCtor.lean as a description of Python's call protocol along the MRO (required parameters, **kwargs "
+                    "forwarding, super() order), validated against the implementation on every class x path x argument shape",
+                    "py/props/c09.py, py/props/c09_ctor.py documented matrices (oracle) and harness"]
     rule = ("case = (gate function or gate name, parameter tuple from a grid with boundary values + seeded random, path) or "
-            "(controlled_gate request: controls, targets, N, control value); non-trivial = parametric gate, multi-qubit gate or "
-            "any controlled_gate request")
+            "(controlled_gate request: controls, targets, N, control value) or (constructor request: class key, path, shape of "
+            "targets, shape of controls, shape of arg_value, control value); non-trivial = parametric gate, multi-qubit gate, "
+            "any controlled_gate request, any constructor request")
 
     def regenerate(self, ctx):
         changed, known, chain, classes, class_map = tg.regenerate()
@@ -524,25 +551,12 @@ class C09(PropertyCheck):
                        "N": N, "value": rng.randrange(2 ** nc)}
 
     def _ctor_sweep(self):
-        """constructor requests: every class / path, well-formed placements, every control value.  The two request classes
-        for which Props/C09.lean proves a counterexample on the current source (flags read from the regenerated table) are
-        left to the known-findings replay."""
-        d = self._ctor()
-        by_key = {e["key"]: e for e in d["entries"]}
-        for w in cc.sweep_requests(d["entries"], self.class_map):
-            if cc.excluded(w, by_key):
-                continue
+        """constructor requests: every class / path, well-formed placements, every control value (no request class is left
+        out; the sweep does not depend on the translator or the model)"""
+        for w in cc.sweep_requests():
             f, det = cc.oracle(w)
             if f:
                 yield w, det
-
-    def finding_matches(self, witness, finding):
-        fw = finding.get("witness") or {}
-        if witness.get("kind") == "ctor" and fw.get("kind") == "ctor":
-            by_key = {e["key"]: e for e in self._ctor()["entries"]}
-            a, b = cc.excluded(witness, by_key), cc.excluded(fw, by_key)
-            return a is not None and a == b
-        return super().finding_matches(witness, finding)
 
     def oracle_always(self, ctx):
         yield from self._ctor_sweep()
